@@ -21,6 +21,7 @@ import (
 	"compress/gzip"
 	"encoding/base64"
 	"encoding/json"
+	"errors"
 	"io"
 
 	rspb "helm.sh/helm/v4/pkg/release/v1"
@@ -82,6 +83,11 @@ func decodeRelease(data string) (*rspb.Release, error) {
 	// unmarshal release object bytes
 	if err := json.Unmarshal(b, &rls); err != nil {
 		return nil, err
+	}
+	// Every code path reads the status from Info; a record without it is as
+	// unreadable as one that does not decode.
+	if rls.Info == nil {
+		return nil, errors.New("release record has no info")
 	}
 	return &rls, nil
 }
